@@ -10,7 +10,7 @@ EXTENDS GenFeatures, SequencesExt, Json, IOUtils
 CONSTANTS PairScope,      \* "core" | "all": which features are combined pairwise
           DocScope        \* "core" | "all": documentation sites x texts
 
-TemplateOrder == <<"single", "list", "chain", "cprim", "concrete_chain", "opt">>
+TemplateOrder == <<"single", "list", "chain", "cprim", "concrete_chain", "opt", "late_parent">>
 FirstApplicable(f) ==
     LET idx == CHOOSE i \in DOMAIN TemplateOrder :
                   /\ FeatureApplicable(f, TemplateOrder[i])
